@@ -75,7 +75,8 @@ def commonStep (ge : C → C → Bool) (cname : P → C → P) (a b : List (P ×
     | _, _ => m
 
 theorem apply_common (ge : C → C → Bool) (cname : P → C → P) (a b : List (P × Fp C)) (l l' : Live P C) (p : P)
-    (act : Action) (c : Bool) (h : apply ge cname a b l p act = some (l', c)) :
+    (act : Action) (c : Bool) (h : apply ge cname a b l p act = some (l', c))
+    (hdel : (act = .deleteA → get l.B p = none) ∧ (act = .deleteB → get l.A p = none)) :
     l'.common = commonStep ge cname a b l.common p act := by
   cases act with
   | noop => simp [apply] at h; simp [commonStep, ← h.1]
@@ -90,8 +91,8 @@ theorem apply_common (ge : C → C → Bool) (cname : P → C → P) (a b : List
     obtain ⟨B', _, h⟩ := h
     simp only [Prod.mk.injEq] at h
     simp [commonStep, ← h.1]
-  | deleteA => simp [apply] at h; simp [commonStep, ← h.1]
-  | deleteB => simp [apply] at h; simp [commonStep, ← h.1]
+  | deleteA => simp [apply, hdel.1 rfl] at h; simp [commonStep, ← h.1]
+  | deleteB => simp [apply, hdel.2 rfl] at h; simp [commonStep, ← h.1]
   | conflict k =>
     cases k with
     | deleteVsModify =>
